@@ -272,17 +272,19 @@ def parseImplDump (text : String) : Option (List DumpDb) :=
       | _ => none
   go lines none []
 
-/-- deadline tolerance: the implementation reads its own clock between t0 and t1 -/
-def expClose (a b : Int) : Bool :=
+/-- deadline tolerance: the implementation reads its own clock between t0 and t1 of the step that set the
+    deadline; `slack` is the longest step of the sequence so far (on a loaded machine a step has been seen
+    to take 70 ms, which a fixed 50 ms tolerance reported as a difference) -/
+def expClose (slack a b : Int) : Bool :=
   if a < 0 || b < 0 then a == b
   else if a == 0 || b == 0 then a == b
-  else decide ((a - b).natAbs ≤ 50000000)
+  else decide (((a - b).natAbs : Int) ≤ 50000000 + slack)
 
 structure IdMemo where
   impl : List (Nat × String × Nat) := []
   model : List (Nat × String × Nat) := []
 
-def compareDumps (m i : List DumpDb) (memo : IdMemo) : Option String × IdMemo :=
+def compareDumps (m i : List DumpDb) (memo : IdMemo) (slack : Int := 0) : Option String × IdMemo :=
   let newMemo : IdMemo :=
     { impl := i.flatMap fun d => d.keys.map fun k => (d.idx, k.key, k.id),
       model := m.flatMap fun d => d.keys.map fun k => (d.idx, k.key, k.id) }
@@ -301,7 +303,7 @@ def compareDumps (m i : List DumpDb) (memo : IdMemo) : Option String × IdMemo :
           | (x, y) :: t =>
             if x.ty != y.ty then some s!"db {a.idx} key {x.key}: type model={x.ty} impl={y.ty}"
             else if x.payload != y.payload then some s!"db {a.idx} key {x.key}: value model={x.payload} impl={y.payload}"
-            else if !expClose x.exp y.exp then some s!"db {a.idx} key {x.key}: deadline model={x.exp} impl={y.exp}"
+            else if !expClose slack x.exp y.exp then some s!"db {a.idx} key {x.key}: deadline model={x.exp} impl={y.exp}"
             else
               -- version ids are compared relatively: changed-since-last-dump must agree
               let pm := (memo.model.find? fun (d, k, _) => d == a.idx && k == x.key).map (·.2.2)
@@ -439,7 +441,7 @@ def step (d : DState) (line : String) : DState × String :=
     | some bytes =>
       match parseImplDump (String.fromUTF8! (ByteArray.mk bytes.toArray)) with
       | some impl =>
-        let (res, memo) := compareDumps (modelDump d.st) impl d.memo
+        let (res, memo) := compareDumps (modelDump d.st) impl d.memo d.slack
         ({ d with memo := memo }, match res with | none => "ok" | some e => "STATE-DIFF " ++ e)
       | none => (d, "bad-dump")
     | none => (d, "bad-op")
